@@ -323,6 +323,13 @@ func runC03(cfg *vh.Config) error {
 		"KBool":      {codecgen.Bool(true), codecgen.Bool(false), codecgen.Str("true"), codecgen.Num("1"), codecgen.Num("0")},
 		"KString":    {codecgen.Str(""), codecgen.Str("\u0000"), codecgen.Str("\U0010FFFF"), codecgen.Num("1"), codecgen.Bool(true)},
 	}
+	for _, lit := range []string{"2147483647", "2147483648", "-2147483648", "-2147483649", "4294967295", "4294967296",
+		"9223372036854775807", "9223372036854775808", "-9223372036854775808", "-9223372036854775809",
+		"18446744073709551615", "18446744073709551616", "0", "-1"} {
+		for _, k := range []codecgen.Kind{"KInt32", "KInt64", "KUint32", "KUint64"} {
+			boundary[k] = append(boundary[k], codecgen.Num(lit), codecgen.Str(lit))
+		}
+	}
 	for _, t := range []*target{byName["env_full"], byName["env_wide"]} {
 		root := t.Env.Lookup(t.Env.Root)
 		for _, p := range root.Props {
